@@ -453,7 +453,7 @@ def step (w : World) (op : Op) : World × Int :=
   match w.h, op with
   | none, .open c => doOpen c w.a
   | none, _ => (w, -2)                     -- the harness passes NULL: SFE_BAD_SNDFILE_PTR, nothing allocated
-  | some _, .open _ => (w, -2)             -- one handle at a time in this model (worlds of several handles: `Sf.Ledger.Multi`)
+  | some _, .open _ => (w, -2)             -- one handle at a time in this model (handles share nothing, so several are a product of such worlds)
   | some h, .close ioOk =>
       ({ h := none, a := retire (releaseAll (h, w.a)) }, closeRet h ioOk)
   | some h, op =>
